@@ -35,7 +35,9 @@ class LoopSpec:
 class Contract:
     def __init__(self, target, schema, self_obj, params, cases, requires=None, modifies=(), loops=None, props=(),
                  must_fail=None, also=(), note='', self_rec=None, app_raises=None, env_hook=None, trusted=False,
-                 summary=None, abstraction='', inline=()):
+                 summary=None, abstraction='', inline=(), thin=False, abstract_calls=()):
+        self.abstract_calls = tuple(abstract_calls)   # callees treated as arbitrary operations here: any state change within modifies, may raise any Exception
+        self.thin = thin              # a thin wrapper whose contract speaks about the calls it makes: callers execute its body
         self.inline = set(inline)     # callees executed from their body here although they have a contract
         self.summary = summary        # cases used at call sites when they speak about an abstract effect that the
         self.abstraction = abstraction  # body cases define (stated in `abstraction`)
